@@ -372,7 +372,7 @@ def c_duration_mul_const(site, fx):
 
 def c_duration_add(site, fx):
     # sum of two durations that come from GUI-supplied i64 millisecond values scaled by factors <= 16
-    return site.family == "duration" and site.what.endswith("Add>::add") and in_fn(site, "TimeStrategy::new")
+    return site.family == "duration" and site.what.endswith("Add>::add") and "search::time_control::" in bn(site)
 
 
 def c_duration_div_movestogo(site, fx):
